@@ -51,3 +51,65 @@ fn bytes_expr_serialize__string_iff_textual_utf8_len2() {
 fn bytes_expr_serialize__string_iff_textual_utf8_len1() {
     bytes_expr_json_shape::<1>()
 }
+
+/// Order- and length-sensitive hasher local to the obligation (no SipHash under CBMC):
+/// it folds every byte it is fed, so two hash() runs agree iff they feed it the same bytes.
+struct FoldHasher(u64);
+
+impl std::hash::Hasher for FoldHasher {
+    fn finish(&self) -> u64 {
+        self.0
+    }
+    fn write(&mut self, bytes: &[u8]) {
+        let mut i = 0;
+        while i < bytes.len() {
+            self.0 = self.0.wrapping_mul(0x100_0000_01b3).wrapping_add(bytes[i] as u64 + 1);
+            i += 1;
+        }
+    }
+}
+
+fn any_format() -> BytesFormat {
+    match kani::any::<u8>() % 3 {
+        0 => BytesFormat::Quoted,
+        1 => BytesFormat::Raw(kani::any()),
+        _ => BytesFormat::Byte,
+    }
+}
+
+/// "equal ASTs have equal hashes" on the hand-written pair Eq (derived, includes the
+/// format tag) / Hash (hand-written, bytes only) of BytesExpr: for every two N-byte
+/// literals in every two formats, a == b implies hash(a) == hash(b); different bytes are
+/// never equal, and the same bytes written the same way always are.
+fn bytes_expr_eq_hash<const N: usize>() {
+    use std::hash::{Hash, Hasher};
+    let da: [u8; N] = kani::any();
+    let db: [u8; N] = kani::any();
+    let fa = any_format();
+    let fb = any_format();
+    let same_format = fa == fb;
+    let a = BytesExpr::new(da.to_vec(), fa);
+    let b = BytesExpr::new(db.to_vec(), fb);
+    let eq = a == b;
+    // (whether the same bytes written in two different formats are equal is left open:
+    // the statement does not say)
+    assert!(!eq || da == db, "literals with different bytes are different");
+    assert!(eq || !(da == db && same_format), "the same literal written the same way is equal to itself");
+    let mut ha = FoldHasher(7);
+    a.hash(&mut ha);
+    let mut hb = FoldHasher(7);
+    b.hash(&mut hb);
+    if eq {
+        assert!(ha.finish() == hb.finish(), "equal literals have equal hashes");
+    }
+    kani::cover!(eq);
+    kani::cover!(da == db && !same_format, "same bytes, different spelling");
+    std::mem::forget(a);
+    std::mem::forget(b);
+}
+
+#[kani::proof]
+#[kani::unwind(12)]
+fn bytes_expr_eq_hash__coherent_len2() {
+    bytes_expr_eq_hash::<2>()
+}
